@@ -6,7 +6,7 @@
 //   chg         every packed register index whose value differs afterwards, with the new value
 //               (computed over the WHOLE state, so "nothing else changed" is part of the observation)
 //   acc         the ordered list of every memory access made: [word_address, is_write, value]
-//               (word_address = raw byte address / 2; MMIO window accesses are [0x100000 + offset, w, v])
+//               (word_address = raw byte address / 2; MMIO window accesses are [0x1000000 + offset, w, v])
 //   out         ok | unimpl (UnimplementedException) | assert (deliberate ASSERT/UNREACHABLE) | oob
 //   idle        the interpreter's idle flag afterwards
 // Modes (what opcodes/states are enumerated):
@@ -76,8 +76,8 @@ struct Machine {
         // is under test here, the peripherals behind it are not
         auto& cells = TeakraVerifAccess::cells(*TeakraVerifAccess::impl(mmio));
         for (unsigned i = 0; i < 0x800; ++i) {
-            cells[i].set = [this, i](u16 v) { mmio_store[i] = v; log.acc.push_back({(int)(0x100000 + i), 1, v}); };
-            cells[i].get = [this, i]() -> u16 { log.acc.push_back({(int)(0x100000 + i), 0, mmio_store[i]}); return mmio_store[i]; };
+            cells[i].set = [this, i](u16 v) { mmio_store[i] = v; log.acc.push_back({(int)(0x1000000 + i), 1, v}); };
+            cells[i].get = [this, i]() -> u16 { log.acc.push_back({(int)(0x1000000 + i), 0, mmio_store[i]}); return mmio_store[i]; };
         }
     }
 };
@@ -159,8 +159,14 @@ int main(int argc, char** argv) {
             // relative branches add a signed 7-bit offset to the 32-bit pc without masking: keep the
             // start address away from both ends of the 18-bit program space (well-formed states of C01;
             // the ends are the business of C18)
+            bool wild = std::strcmp(kind, "wild") == 0;
+            if (wild) {   // C18: the ends of the program space and non-zero program pages are reachable by a guest
+                if (rng.chance(1, 4)) { static const u32 e[] = {0, 1, 2, 0x3F, 0x40, 0x3FFBF, 0x3FFC0, 0x3FFFD, 0x3FFFE, 0x3FFFF}; pc = pre[vlayout::I_pc] = e[rng.below(10)]; }
+                if (rng.chance(1, 4)) pre[vlayout::I_prpage] = 1 + rng.below(15);
+            } else {
             if (pc < 0x80) pc = pre[vlayout::I_pc] = 0x80 + rng.below(64);
             if (pc > 0x3FF00) pc = pre[vlayout::I_pc] = 0x3FF00 - rng.below(64);
+            }
             vlayout::unpack_regs(pre.data(), m.regs);
             // latches
             int lat[7];
@@ -175,9 +181,10 @@ int main(int argc, char** argv) {
             m.miu.Reset();
             // place the instruction (not logged: observer off)
             verif_mem_observer = nullptr;
-            u16 old0 = m.sm.ReadWord(pc), old1 = m.sm.ReadWord(pc + 1);
-            m.sm.WriteWord(pc, (u16)w);
-            m.sm.WriteWord(pc + 1, x);
+            u32 fa = pc | ((u32)pre[vlayout::I_prpage] << 18);   // where the interpreter will fetch from
+            u16 old0 = 0, old1 = 0;
+            if (fa < 0x40000) m.sm.WriteWord(fa, (u16)w);
+            if (fa + 1 < 0x40000) m.sm.WriteWord(fa + 1, x);
             m.log.acc.clear(); m.log.oob = false;
             verif_mem_observer = &m.log;
 
@@ -196,6 +203,7 @@ int main(int argc, char** argv) {
             o.begin();
             o.str("e", "I");
             o.num("op", w);
+            { vrec::Rec rk; try { auto mk = Decode<vrec::Rec>((u16)w); mk.call(rk, (u16)w, 0); } catch (...) { rk.key = "ambiguous/"; } o.str("key", rk.key.c_str()); }
             o.num("x", x);
             o.raw("pre", vh::arr(pre.begin(), pre.end()));
             o.raw("lat", vh::arr(lat, lat + 7));
@@ -228,10 +236,9 @@ int main(int argc, char** argv) {
                     u16 v = hash16(e[0], memseed);
                     m.membuf[2 * e[0]] = v & 0xFF; m.membuf[2 * e[0] + 1] = v >> 8;
                 }
-            m.membuf[2 * pc] = old0 & 0xFF; m.membuf[2 * pc + 1] = old0 >> 8;
-            m.membuf[2 * (pc + 1)] = old1 & 0xFF; m.membuf[2 * (pc + 1) + 1] = old1 >> 8;
+            (void)old0; (void)old1;
             // restore any cell the instruction overwrote at pc / pc+1 to the pattern as well
-            for (u32 q : {pc, pc + 1}) { u16 v = hash16(q, memseed); m.membuf[2 * q] = v & 0xFF; m.membuf[2 * q + 1] = v >> 8; }
+            for (u32 q : {fa, fa + 1}) { if (q >= 0x40000) continue; u16 v = hash16(q, memseed); m.membuf[2 * q] = v & 0xFF; m.membuf[2 * q + 1] = v >> 8; }
             m.mmio_store.fill(0);
         }
     }
